@@ -30,7 +30,7 @@ theorem inst_wf (g : Gate) (t : TGate) (g' : Gate) (h : t.inst g = some g') (ht 
     · right
       rw [hc] at h2
       simp at h2
-      exact h2.symm
+      exact h2
   · cases h
 
 theorem instBody_wf (g : Gate) (body : List TGate) (out : List Gate) (h : instBody g body = some out)
@@ -152,9 +152,9 @@ theorem resolveAll_den (N : ℕ) (ρ : ℕ → ℝ) (b2 : List GName) (inB : GNa
           ih Ugs ps rs (fun x hx => hok x (List.mem_cons_of_mem _ hx)) hgs h2
         refine ⟨c2 * c1, V2 * M1, ?_, denG_append_some N ρ r rs M1 V2 hr1 hr2, ?_, ?_, ?_⟩
         · rw [denG_append_some N ρ p ps _ _ hp1 hp2]
-          simp [smul_smul]
+          simp [smul_smul, mul_comm]
         · rw [← hc1, ← hc2]
-          simp [smul_smul]
+          simp [smul_smul, mul_comm]
         · intro x hx
           rcases List.mem_append.mp hx with h | h
           · exact hwp1 x h
